@@ -708,6 +708,19 @@ def wantedNumbers (t : Token) : Option (List (Option Nat)) :=
 
 /-- C07 on the emitted program: the constants are exactly count × unit (read back as integers). -/
 def checkC07Emit (req : List String) (obs : String) : Option String :=
+  -- a requested thread count, wherever it stands among other options, is carried unchanged
+  match (annot req "threads").bind String.toNat? with
+  | some n =>
+    match decodeParse (splitBar obs).1, decodeCompile obs with
+    | .ok o _, .ok _ _ _ ((text, _) :: _) =>
+      if o.threads ≠ some n then some s!"thread-count-not-carried-into-the-options want={n}"
+      else match readProgram text with
+        | some p => if p.threads == .num n then none else some s!"thread-count-not-carried-into-the-program want={n}"
+        | none => some "program-does-not-read-back"
+    | .ok o _, _ => if o.threads ≠ some n then some s!"thread-count-not-carried-into-the-options want={n}" else none
+    | .err _ _ _ _ _, _ => some s!"thread-count-rejected want={n}"
+    | _, _ => none
+  | none =>
   match annotText req "kw", annotTexts req "args" with
   | some kw, some args =>
     match Spec.expectedToken (String.ofList kw) args, decodeCompile obs with
